@@ -51,6 +51,8 @@ def gen_case(rng, tier):
         else:
             rows = {'dense': p, 'wide': max(1, p // 2), 'tall': p + rng.randint(1, 3)}[kind]
             Q = [[dy(rng, -3, 4, (1, 2)) for _ in range(p)] for _ in range(rows)]
+            if all(x == 0 for r in Q for x in r):
+                Q[0][rng.randrange(p)] = Fraction(1)      # never an all-zero query matrix: eigsh cannot start on it (outside the generated inputs, as in C03/C08)
         y = [dy(rng, -8, 40) for _ in range(rows)]
         sigma = Fraction(rng.choice([1, 1, 2, 4, 8]), rng.choice([1, 2, 4]))
         ms.append(dict(proj=proj, Q=Q, y=y, sigma=sigma, kind=kind, rows=rows, p=p))
